@@ -52,7 +52,8 @@ MANIFEST = {
     "note": "Trusted: z3/CrossHair; the AST->SMT translator (validated per run against the real functions, incl. the "
             "repository's own test inputs); the hand-written recogniser as definition of stub syntax; ASCII only; "
             "known findings (unescaped sites, unescaped string contents, '*/' in descriptions, degenerate converted "
-            "names) are listed in known_findings.json and excluded as regions/labels.",
+            "names, docstring default texts that are no Python literal) are listed in known_findings.json and excluded as "
+            "regions/labels.",
     "technique": "AST->SMT bounded-string encoding of the real kernels decided by z3 (cvc5 cross-check) + CrossHair "
                  "symbolic execution of the generator with tagging stubs and an independent recogniser",
 }
